@@ -164,3 +164,20 @@ def restore_globals(snap):
 
 def collect_garbage():
     gc.collect()
+    try:
+        from dask._expr import SingletonExpr
+
+        inst = getattr(SingletonExpr, "_instances", None)
+        if inst is not None:
+            inst.clear()
+    except Exception:  # pragma: no cover
+        pass
+    # other process-global caches of dask that change behaviour between a cold and a warm
+    # process: computed divisions (skips the hidden quantile compute on a hit) and the cached
+    # module-level RandomState behind da.random.<function>
+    m = sys.modules.get("dask.dataframe.dask_expr._shuffle")
+    if m is not None and hasattr(m, "divisions_lru"):
+        m.divisions_lru.data.clear()
+    m = sys.modules.get("dask.array.random")
+    if m is not None and hasattr(m, "_cached_states"):
+        m._cached_states.clear()
